@@ -9,7 +9,7 @@ evaluated over the instantiation-aware call graph rooted at the public API.
 import os, re
 from ..common import PUBLIC_ENTRIES, STD_CRATES, macro_names, in_std_macro, in_derive, strip_generics
 from ..facts import AnchorMissing
-from .. import flow
+from .. import flow, lazy
 
 # (b)/(d): callee-name deny list. name = instance name with generic arguments stripped.
 DENY = [
@@ -105,7 +105,13 @@ def run(ctx, rep):
                    "the C part of zstd (bulk API creates a context per call)",
                    "callee name = behaviour for std leaves without MIR (e.g. std::io::_print)"]
     roots = F.roots_for(PUBLIC_ENTRIES)
-    parent = F.reach(roots)
+    # Lazily initialised immutable statics (pfa/lazy.py): the std once-machinery behind LazyLock<T>::force with the default
+    # `fn() -> T` initialiser is not expanded (it is a lock around "call f once"); f itself stays in the graph through the
+    # static's allocation edge and is scanned by S2..S4 like every other function; S1 decides whether the static qualifies.
+    LZ = lazy.lazy_statics(F)
+    cut = [i["id"] for i in F.instances if lazy.is_force_instance(i["name"])]
+    parent = F.reach(roots, cut=cut)
+    rep.stats["lazy_statics"] = {k: v["init"] or v["why"] for k, v in LZ.items()}
     rep.stats["instances_reachable"] = len(parent)
     rep.stats["instances_local"] = sum(1 for i in parent if F.inst(i)["local"])
     rep.stats["entry_points"] = PUBLIC_ENTRIES
@@ -119,8 +125,13 @@ def run(ctx, rep):
     for name, s in sorted(F.statics.items()):
         n += 1
         ok = (not s["mut"]) and s["freeze"] and not s["thread_local"]
+        extra = ""
+        if not ok and name in LZ:
+            ok = LZ[name]["ok"]
+            extra = ("; accepted as a lazily initialised constant: plain payload, capture-free argument-free initialiser %s (scanned by S2-S4)" % LZ[name]["init"]
+                     if ok else "; LazyLock not accepted: " + LZ[name]["why"])
         rep.add("S1", "static:" + name, ok, "%s:%s" % (s.get("file"), s.get("line")),
-                "type %s mut=%s freeze=%s thread_local=%s" % (s["ty"], s["mut"], s["freeze"], s["thread_local"]))
+                "type %s mut=%s freeze=%s thread_local=%s%s" % (s["ty"], s["mut"], s["freeze"], s["thread_local"], extra))
     rep.floor("S1", "crate-statics", n, 2)
     reached = set()
     for i in parent:
@@ -134,7 +145,11 @@ def run(ctx, rep):
             rep.add("S1", "reached-static:" + sname, False, "", "no facts for reached static")
             continue
         ok = (not info["mut"]) and info["freeze"] and not info["thread_local"] and not info["foreign"]
-        if not ok and sname in STATIC_REVIEWED:
+        if not ok and sname in LZ and LZ[sname]["ok"]:
+            init_ids = [i["id"] for i in F.instances if i.get("def") == LZ[sname]["init"]]
+            inside = bool(init_ids) and all(i in parent for i in init_ids)
+            rep.add("S1", "reached-static:" + sname, inside, "", "lazily initialised constant; its initialiser %s must be part of the scanned graph" % LZ[sname]["init"])
+        elif not ok and sname in STATIC_REVIEWED:
             rep.add("S1", "reached-static:" + sname, True, "", "reviewed: " + STATIC_REVIEWED[sname])
         else:
             who = [F.inst(i)["name"] for i in parent if sname in F.inst(i).get("statics", [])][:2]
